@@ -5,5 +5,5 @@ CONSTANTS
   Durs <- MCDurs
   Largests <- MCLargests
   OneStep = TRUE
-INVARIANTS DiffLaws SodLaws LenLaws
+INVARIANTS DiffLaws SodLaws WptLaws LenLaws
 CHECK_DEADLOCK FALSE
